@@ -25,7 +25,7 @@ NAMES = ["a", "b", "c", "d", "e"]
 
 def plan(tier, seed):
     if tier == "quick":
-        return [{"n": 500} for _ in range(8)]
+        return [{"n": 1000} for _ in range(16)]
     return [{"n": 8000} for _ in range(16)]
 
 
